@@ -17,6 +17,21 @@ CLAIMED = {
         tech="deterministic simulation: seeded histories + node-outage injection, chain-truth (independent UTXO rewind) reference oracle after each refresh"),
 }
 
+CLAIMED.update({
+    "C01": dict(cat="exploration", ref="DESIGN.md §3 C01",
+        text="Seeded histories build varied output sets on real wallets and a real chain, then bursts of init_send_tx / process_invoice_tx with boundary-rich arguments run under node-call failures and failing writes. On success the saved private context (observer read) is checked against the simulator's own chain truth: every input is an unreserved, mature, sufficiently confirmed output of the source account, inputs = amount + fee + change (or the amount-includes-fee variant), fee >= the network minimum for the resulting shape; on failure nothing reserving funds may have been persisted and a panic is a violation. The argument dimension is seeded sampling (labelled partial scope); the history/failure dimensions are what simulation adds.",
+        tech="deterministic simulation: seeded histories + boundary-argument bursts under node/storage fault injection, context-vs-chain-truth conservation oracle"),
+    "C02": dict(cat="exploration", ref="DESIGN.md §3 C02",
+        text="Seeded exchanges of every flow kind between real wallets; the simulator is the wire and alters a fraction of replies by one field-level mutation before finalization. Every transaction returned by finalize is validated with grin_core, compared with the payer's recorded reservation and change, the DealBook's agreed amount and fee, the recipient's recorded output and the stored copy byte for byte; after a refused finalize the pending transaction must still cancel and release its inputs.",
+        tech="deterministic simulation: corrupting transport (one field mutation per reply), DealBook exactness oracle + consensus validation of every finalized transaction"),
+    "C05": dict(cat="exploration", ref="DESIGN.md §3 C05",
+        text="Seeded histories with a focus script (refresh, create a transaction in a chosen role, drive it to a chosen stage, cancel by log id or slate id). The oracle is derived from the trace alone: the snapshot after the wallet's last successful refresh is the base as long as the chain has not moved and only the target transaction touched the wallet; after the cancel every output's status and value and every balance figure must equal the base, the target entry must be cancelled and all others untouched; cancels of confirmed, cancelled, coinbase and unknown entries must be refused without effect.",
+        tech="deterministic simulation: seeded histories + trace-derived base snapshot, exact-rollback comparison"),
+    "C11": dict(cat="exploration", ref="DESIGN.md §3 C11",
+        text="Seeded proof-carrying sends between three real wallets with replies altered on the proof fields; on every successful finalize the simulator re-verifies the recipient signature itself (ed25519 over amount, final kernel excess, sender address); exported proofs and single-field mutations of them are verified by sender, recipient and a third wallet while the kernel is unmined, mined and re-organised away on the real chain.",
+        tech="deterministic simulation: corrupting transport on proof fields + real-chain reorgs, independent signature re-verification oracle"),
+})
+
 NOT_YET = {
     "C08": "not applicable to this technique: encode/decode round-trips are pure functions of their input (no schedule, clock, fault, crash point or second party); deciding them needs structural input generation or proof, see DESIGN.md §4",
 }
